@@ -481,6 +481,24 @@ func (e Element) hasChildrenRequiringOwnLine() bool {
 		if _, isTrailer := c.(WhitespaceTrailer); !isTrailer {
 			return true
 		}
+		// An element that is itself written over several lines cannot share a line with its siblings.
+		if el, isElement := c.(Element); isElement && el.spansLines() {
+			return true
+		}
+	}
+	return false
+}
+
+// spansLines reports whether the element is written over more than one line.
+func (e Element) spansLines() bool {
+	return e.IndentAttrs || e.hasConditionalAttribute() || (e.hasNonWhitespaceChildren() && (e.IndentChildren || e.hasChildrenRequiringOwnLine()))
+}
+
+func (e Element) hasConditionalAttribute() bool {
+	for _, a := range e.Attributes {
+		if _, ok := a.(ConditionalAttribute); ok {
+			return true
+		}
 	}
 	return false
 }
@@ -538,6 +556,9 @@ func (e Element) Write(w io.Writer, indent int) error {
 	if err := writeIndent(w, indent, "<", e.Name); err != nil {
 		return err
 	}
+	// A conditional attribute is always written over several lines, so the attributes
+	// cannot stay on the line of the element name.
+	e.IndentAttrs = e.IndentAttrs || e.hasConditionalAttribute()
 	for i := range e.Attributes {
 		a := e.Attributes[i]
 		// Only the conditional attributes get indented.
